@@ -299,10 +299,3 @@ def _bin_of(ctx, start, end):
     return spec_bins(start, end, "gff", True)
 
 
-def _bin_of_old(ctx, start, end):
-    """bins.bins(start, end, one=True) by abstract evaluation of the package's own function on singleton input."""
-    from ..binsai import BinsInterp
-    from ..binsmodel import bins_consts
-    f = ctx.proj.func("bins.bins")
-    rets = BinsInterp(ctx, f, bins_consts(ctx)).run("gff", True, (start, start), (end, end))
-    return rets[0].value.lo if len(rets) == 1 and hasattr(rets[0].value, "lo") else None
